@@ -79,6 +79,12 @@ pub struct WrapCase {
     pub width: usize,
     pub wrapper: Wrapper,
     pub trivial: bool,
+    /// invisible extras: bit 0 = id on the paragraph, bit 1 = ids on the inline elements
+    #[serde(default)]
+    pub ids: u8,
+    /// `max_wrap_width(m)` on top of a prefixed wrapper (effective width min(m, w - prefix))
+    #[serde(default)]
+    pub extra_max_wrap: Option<usize>,
 }
 
 const SEPS: &[&str] = &[" ", "  ", "\n", " \t ", "\r\n", " <!--x--> ", "<!--x--> ", "<span></span> ", " <b></b>", "<em> </em>", "\u{a0}", " \u{a0}\n", "<span> </span>", "<span>\n</span>", "<u> </u>", "<strong><span> </span></strong>", "<font>\t</font>", "<span><span> </span></span>"];
@@ -95,7 +101,8 @@ pub fn build_html(case: &WrapCase) -> String {
         pieces.push((w.clone(), false));
     }
     // cut positions are inside words only (char boundaries); each cut closes/open an element
-    let mut out = String::from("<p>");
+    let mut out = String::from(if case.ids & 1 != 0 { "<p id=\"p0\">" } else { "<p>" });
+    let mut serial = 0usize;
     let total_chars: usize = case.words.iter().map(|w| w.chars().count()).sum();
     let mut cut_at: Vec<(usize, &str)> = case
         .cuts
@@ -112,17 +119,24 @@ pub fn build_html(case: &WrapCase) -> String {
     let mut open: Option<&str> = None;
     let mut idx = 0usize; // index over word characters
     let mut ci = 0;
-    let apply_cuts = |idx: usize, out: &mut String, open: &mut Option<&str>, ci: &mut usize, cut_at: &Vec<(usize, &'static str)>| {
+    let with_ids = case.ids & 2 != 0;
+    let mut apply_cuts = |idx: usize, out: &mut String, open: &mut Option<&str>, ci: &mut usize, cut_at: &Vec<(usize, &'static str)>| {
         while *ci < cut_at.len() && cut_at[*ci].0 == idx {
             if let Some(t) = open.take() {
                 out.push_str(&format!("</{}>", t));
             }
             let t = cut_at[*ci].1;
             if !t.is_empty() {
-                if t == "a" {
-                    out.push_str("<a href=\"u\">");
+                let id = if with_ids {
+                    serial += 1;
+                    format!(" id=\"k{}\"", serial)
                 } else {
-                    out.push_str(&format!("<{}>", t));
+                    String::new()
+                };
+                if t == "a" {
+                    out.push_str(&format!("<a href=\"u\"{}>", id));
+                } else {
+                    out.push_str(&format!("<{}{}>", t, id));
                 }
                 *open = Some(t);
             } else {
@@ -186,10 +200,20 @@ pub fn check_wrap(case: &WrapCase, st: &mut Stats) -> Result<(), String> {
         }
         Wrapper::Dd => ("  ".into(), "  ".into()),
     };
-    let eff = match &case.wrapper {
+    let mut eff = match &case.wrapper {
         Wrapper::MaxWrap(m) => (*m).min(w),
         _ => w.saturating_sub(p1.len()),
     };
+    if let Some(m) = case.extra_max_wrap {
+        if !matches!(case.wrapper, Wrapper::MaxWrap(_)) {
+            cfg.max_wrap = Some(m);
+            eff = eff.min(m);
+            st.class("max_wrap_on_prefixed_or_plain");
+        }
+    }
+    if case.ids != 0 {
+        st.class("with_ids");
+    }
     let html = build_html(case);
     st.sample(|| json!({"html": short(&html, 300), "width": w, "effective_width": eff, "cfg": cfg_brief(&cfg)}));
     let got = render(&cfg, html.as_bytes(), w);
@@ -251,6 +275,8 @@ fn exhaustive_items(ctx: &Ctx) -> Vec<WrapCase> {
                 width: w,
                 wrapper: Wrapper::None,
                 trivial: false,
+                ids: 0,
+                extra_max_wrap: None,
             });
         }
         // next tuple (odometer over lengths 1..=maxn)
@@ -304,8 +330,10 @@ pub fn wrap_case() -> BoxedStrategy<WrapCase> {
         1usize..=40,
         wrapper,
         any::<bool>(),
+        prop_oneof![3 => Just(0u8), 1 => Just(1u8), 1 => Just(2u8), 1 => Just(3u8)],
+        prop::option::weighted(0.2, 1usize..45),
     )
-        .prop_map(|(words, seps, cuts, width, wrapper, trivial)| WrapCase { words, seps, cuts, width, wrapper, trivial })
+        .prop_map(|(words, seps, cuts, width, wrapper, trivial, ids, extra_max_wrap)| WrapCase { words, seps, cuts, width, wrapper, trivial, ids, extra_max_wrap })
         .boxed()
 }
 
